@@ -7,13 +7,70 @@ package pipeline
 // C44: a submission that returns an error has not consumed a sequence number (the apply stage waits
 // for every number in turn, so a consumed-but-undelivered number would stall all later blocks); the
 // counter advances exactly when an item has been delivered, and after the delivery. The item
-// that is delivered carries the counter value read under the submit token.
+// that is delivered carries the counter value read under the submit token, and the token is taken
+// back only by a call that put it there (a call that never acquired it must not drain another
+// submitter's token: two submitters would then read the same number).
 //@ func (p *BlockPipeline) Submit(ctx, blockType, rawCbor, tip) (err)
 //@   props C44
 //@   attr trackcalls on
 //@   attr safe off
-//@   requires nonnil: p != nil
 //@   ensures nogap: err != nil ==> !called("(*Uint64).Add")
 //@   ensures counted: sent(submitChan) <==> called("(*Uint64).Add")
 //@   callback send:submitChan requires seq: called("(*Uint64).Load") && arg0 != nil && arg0.sequenceNumber == callres("(*Uint64).Load") && !called("(*Uint64).Add")
 //@   callback call:(*Uint64).Add requires afterSend: sent(submitChan) && arg1 == 1
+//@   callback recv:submitToken requires held: sent(submitToken)
+//@   callback send:submitChan requires holding: sent(submitToken)
+
+// C42 (sequential kernel of the apply stage; ProcessWithStatus has a single caller, the runner).
+// The application's apply callback is assumed not to write the pipeline's own (unexported) state.
+//@ purefunc applyFunc
+
+// The pending buffer holds every item under its own sequence number.
+//@ spec func pendingOK(s *ApplyStage) bool = forall k uint64 :: k in s.pending ==> s.pending[k] != nil && s.pending[k].sequenceNumber == k
+
+// A block is handed to the application only if it decoded, produced no validation error and - when
+// validation is required - was actually validated; nothing but the item's apply result and the
+// in-flight counter changes.
+//@ func (s *ApplyStage) maybeApply(ctx, item)
+//@   props C42
+//@   requires nonnil: s != nil && item != nil
+//@   assigns item.applied, item.applyError, item.applyDuration, s.inFlight
+//@   callback applyFunc requires good: arg0 == item && item.decodeError == nil && item.validationError == nil && (s.requireValidation ==> item.valid)
+
+// Draining the buffer: items leave it in sequence order, one per sequence number, starting at the
+// next expected number; each is offered to maybeApply exactly when its number has just been
+// passed; the buffer keeps every other entry.
+//@ func (s *ApplyStage) applyPending(ctx) (processed)
+//@   props C42
+//@   requires nonnil: s != nil
+//@   requires inv: pendingOK(s)
+//@   assigns s.nextSequence, s.inFlight, s.pending[*], all(BlockItem).applied, all(BlockItem).applyError, all(BlockItem).applyDuration
+//@   ensures inv: pendingOK(s)
+//@   ensures advance: s.nextSequence == old(s.nextSequence) + uint64(len(processed))
+//@   ensures inorder: forall i int :: 0 <= i && i < len(processed) ==> processed[i] != nil && processed[i].sequenceNumber == old(s.nextSequence) + uint64(i)
+//@   ensures subset: forall k uint64 :: k in s.pending ==> old(k in s.pending) && s.pending[k] == old(s.pending[k])
+//@   callback call:maybeApply requires inorder: arg2 != nil && arg2.sequenceNumber + 1 == s.nextSequence
+//@   loop 0 invariant pendingOK(s) && s.nextSequence == old(s.nextSequence) + uint64(len(processed))
+//@   loop 0 invariant forall i int :: 0 <= i && i < len(processed) ==> processed[i] != nil
+//@   loop 0 invariant forall i int :: 0 <= i && i < len(processed) ==> processed[i].sequenceNumber == old(s.nextSequence) + uint64(i)
+//@   loop 0 invariant forall k uint64 :: k in s.pending ==> old(k in s.pending) && s.pending[k] == old(s.pending[k])
+
+// One item arrives at the apply stage. If it carries the next expected sequence number it is
+// offered to maybeApply at once (with that number just passed), followed by the buffered run that
+// now continues it: the returned items are consecutive from the old expected number, the input item
+// first, and the expected number advances by their count. Otherwise the item is buffered under its
+// own number and nothing is applied. The buffer invariant is kept. (A cancelled context returns
+// before any of this; that path is recognised by the call of ctx.Err.)
+//@ func (s *ApplyStage) ProcessWithStatus(ctx, item) (processed, err)
+//@   props C42
+//@   attr trackcalls on
+//@   requires nonnil: s != nil && item != nil
+//@   requires inv: pendingOK(s)
+//@   ensures inv: pendingOK(s)
+//@   ensures innow: !called(Context.Err) && old(item.sequenceNumber == s.nextSequence) ==> err == nil && len(processed) >= 1 && processed[0] == item
+//@   ensures advance: !called(Context.Err) && old(item.sequenceNumber == s.nextSequence) ==> s.nextSequence == old(s.nextSequence) + uint64(len(processed))
+//@   ensures inorder: forall i int :: 0 <= i && i < len(processed) ==> processed[i] != nil && processed[i].sequenceNumber == old(s.nextSequence) + uint64(i)
+//@   ensures buffered: !called(Context.Err) && old(item.sequenceNumber != s.nextSequence) ==> len(processed) == 0 && s.nextSequence == old(s.nextSequence) &&
+//@       item.sequenceNumber in s.pending && s.pending[item.sequenceNumber] == item
+//@   ensures cancelled: called(Context.Err) ==> len(processed) == 0 && s.nextSequence == old(s.nextSequence)
+//@   callback call:maybeApply requires inorder: arg2 != nil && arg2.sequenceNumber + 1 == s.nextSequence
